@@ -278,6 +278,9 @@ def run(repo, rep):
     from ..symval import TRUNC_EVENTS
     del TRUNC_EVENTS[:]
     _run(repo, rep)
+    # conform14 = epoch propagation, then conform7: the point formula of conform7 is part of what C07 states
+    from . import c06
+    c06.point_rule(repo, rep)
     # clause 2 quantifies over "every shipped parameter set" and its negation: the reverse-direction constants of the catalogue ARE the
     # negations users transform back with - each must carry exactly the negated parameters and rates of its forward partner
     from . import c11
